@@ -20,6 +20,19 @@ CHECKS = {
             "violation with the journalled case). Sampling plus an exhaustive sweep of a small family; not a proof.",
             "Trusted: Python fractions, numpy; points never denormal (FTZ/DAZ).",
             "DESIGN.md section 2, C02"),
+    "C04": ("exploration",
+            "exhaustive itertools enumeration of all short refinement histories on tiny meshes + Hypothesis-generated "
+            "longer histories (model-based: every call is replayed on a reference model of nested cell sets)",
+            "All sequences of <=2 (quick) / <=3 (thorough) refine calls over all non-empty subsets of active cells "
+            "(multi-level marks included) on 1D meshes with <=3(4) cells and the 2D 2x2 mesh, for p in {1,2,3}, disparity "
+            "{inf,1,2}, HB/THB, marks as set/list/tuple, are enumerated; random histories in 1D-3D with refine_region and "
+            "copies are generated. After every call: tiling, activity by the support definition (both directions), "
+            "canonical order, rank of represent_fine, THB non-negativity/partition of unity, HB<->THB transforms against "
+            "a definition-based reference, disparity bound, incidence matrix and support queries. Exhaustive only for "
+            "the stated tiny sub-domain; sampling beyond.",
+            "Trusted: vp/ref/hier.py (definitions), vp/ref/bspl.py Boehm insertion. For finite disparity the returned "
+            "refined cells are taken as the actual marks.",
+            "DESIGN.md section 2, C04"),
     "C07": ("exploration",
             "Hypothesis-generated spline/NURBS/user/composed functions, points and operation arguments; oracle = "
             "independent tensor-product Cox-de Boor + quotient-rule reference and the documented formulas",
